@@ -22,14 +22,14 @@ func init() {
 	register("regions-conc", regionsConc)
 }
 
-func nonNil(a []int) []int {
+func regNonNil(a []int) []int {
 	if a == nil {
 		return []int{}
 	}
 	return a
 }
 
-func sameInts(a, b []int) bool {
+func regSameInts(a, b []int) bool {
 	if len(a) != len(b) {
 		return false
 	}
@@ -41,8 +41,8 @@ func sameInts(a, b []int) bool {
 	return true
 }
 
-// newIndex calls the real constructor and observes a panic.
-func newIndex(starts, ends []int) (idx *regions.Index, panicked bool, msg string) {
+// regNewIndex calls the real constructor and observes a panic.
+func regNewIndex(starts, ends []int) (idx *regions.Index, panicked bool, msg string) {
 	panicked, msg = catch(func() { idx = regions.NewIndex(starts, ends) })
 	return
 }
@@ -106,7 +106,7 @@ func regionsReplay(args []string) error {
 			for i, x := range c.Ends {
 				ends[i] = f(x)
 			}
-			idx, panicked, msg := newIndex(starts, ends)
+			idx, panicked, msg := regNewIndex(starts, ends)
 			executed++
 			if panicked != c.Panic {
 				add(regMismatch{ci, mi, "newindex-panic", 0, 0, map[string]any{"panicked": panicked, "msg": msg}, c.Panic})
@@ -121,8 +121,8 @@ func regionsReplay(args []string) error {
 				for _, real := range []int{f(q), f(q) + m.Stride - 1} {
 					got := idx.At(real)
 					executed++
-					if !sameInts(got, c.Answers[qi]) {
-						add(regMismatch{ci, mi, "at", q, real, nonNil(got), c.Answers[qi]})
+					if !regSameInts(got, c.Answers[qi]) {
+						add(regMismatch{ci, mi, "at", q, real, regNonNil(got), c.Answers[qi]})
 						break queries // one report per (case, map)
 					}
 					// the returned slice is private: overwrite it, the next At must not notice
@@ -131,8 +131,8 @@ func regionsReplay(args []string) error {
 					}
 					again := idx.At(real)
 					executed++
-					if !sameInts(again, c.Answers[qi]) {
-						add(regMismatch{ci, mi, "at-after-mutation", q, real, nonNil(again), c.Answers[qi]})
+					if !regSameInts(again, c.Answers[qi]) {
+						add(regMismatch{ci, mi, "at-after-mutation", q, real, regNonNil(again), c.Answers[qi]})
 						break queries
 					}
 					if m.Stride == 1 {
@@ -148,8 +148,8 @@ func regionsReplay(args []string) error {
 // ---------------------------------------------------------------- leg T: generator
 
 const (
-	maxInt = math.MaxInt
-	minInt = math.MinInt
+	regMaxInt = math.MaxInt
+	regMinInt = math.MinInt
 )
 
 type regSession struct {
@@ -171,7 +171,7 @@ func regGen(sid int) regSession {
 	}
 	var starts, ends []int
 	put := func(s, e int) { starts, ends = append(starts, s), append(ends, e) }
-	extremes := []int{minInt, minInt + 1, minInt + 2, minInt + 3, -2, -1, 0, 1, 2, maxInt - 3, maxInt - 2, maxInt - 1, maxInt}
+	extremes := []int{regMinInt, regMinInt + 1, regMinInt + 2, regMinInt + 3, -2, -1, 0, 1, 2, regMaxInt - 3, regMaxInt - 2, regMaxInt - 1, regMaxInt}
 	any64 := func() int {
 		switch r.Intn(4) {
 		case 0:
@@ -179,9 +179,9 @@ func regGen(sid int) regSession {
 		case 1:
 			return int(r.Uint64()) // whole range, both signs
 		case 2:
-			return maxInt - r.Intn(50)
+			return regMaxInt - r.Intn(50)
 		default:
-			return minInt + r.Intn(50)
+			return regMinInt + r.Intn(50)
 		}
 	}
 	switch kind {
@@ -312,16 +312,16 @@ func regQueries(s regSession) []int {
 	for _, l := range [][]int{s.starts, s.ends} {
 		for _, x := range l {
 			add(x)
-			if x > minInt {
+			if x > regMinInt {
 				add(x - 1)
 			}
-			if x < maxInt {
+			if x < regMaxInt {
 				add(x + 1)
 			}
 		}
 	}
-	add(minInt)
-	add(maxInt)
+	add(regMinInt)
+	add(regMaxInt)
 	add(0)
 	sort.Ints(q)
 	return q
@@ -344,7 +344,7 @@ type regEvent struct {
 	RawQ string `json:"rawq"`
 }
 
-type rawAt struct {
+type regRawAt struct {
 	q   int
 	ret []int
 	tag string
@@ -352,7 +352,7 @@ type rawAt struct {
 
 // regEmit projects the coordinates of one session to their ranks (a strictly monotone map, so every
 // comparison the property makes is preserved) and writes the events.
-func regEmit(tw *traceWriter, sid int, s regSession, panicked bool, ats []rawAt, conc bool) {
+func regEmit(tw *traceWriter, sid int, s regSession, panicked bool, ats []regRawAt, conc bool) {
 	vals := map[int]bool{}
 	for _, x := range s.starts {
 		vals[x] = true
@@ -385,7 +385,7 @@ func regEmit(tw *traceWriter, sid int, s regSession, panicked bool, ats []rawAt,
 	for _, a := range ats {
 		step++
 		tw.emit(regEvent{Sid: sid, Step: step, Op: "at", Starts: []int{}, Ends: []int{}, Q: rank[a.q],
-			Ret: nonNil(a.ret), Tag: a.tag, RawQ: strconv.Itoa(a.q)})
+			Ret: regNonNil(a.ret), Tag: a.tag, RawQ: strconv.Itoa(a.q)})
 	}
 	if conc {
 		step++
@@ -393,7 +393,7 @@ func regEmit(tw *traceWriter, sid int, s regSession, panicked bool, ats []rawAt,
 	}
 }
 
-func cpInts(a []int) []int { return append([]int{}, a...) }
+func regCpInts(a []int) []int { return append([]int{}, a...) }
 
 func regionsDrive(args []string) error {
 	if err := need(args, 2, "regions-drive <out.ndjson> <sessions> [only-sid]"); err != nil {
@@ -415,27 +415,27 @@ func regionsDrive(args []string) error {
 		s := regGen(sid)
 		r := newRand(int64(sid) + 16500)
 		// the index gets its own copies of the lists; what is logged is what was passed
-		idx, panicked, _ := newIndex(cpInts(s.starts), cpInts(s.ends))
-		var ats []rawAt
+		idx, panicked, _ := regNewIndex(regCpInts(s.starts), regCpInts(s.ends))
+		var ats []regRawAt
 		if !panicked && idx != nil {
 			qs := regQueries(s)
 			var kept [][]int
 			for _, q := range qs {
 				ret := idx.At(q)
-				ats = append(ats, rawAt{q, cpInts(ret), "first"})
+				ats = append(ats, regRawAt{q, regCpInts(ret), "first"})
 				switch r.Intn(3) {
 				case 0: // overwrite the returned slice (whole capacity), then ask again
 					full := ret[:cap(ret)]
 					for i := range full {
 						full[i] = -7
 					}
-					ats = append(ats, rawAt{q, cpInts(idx.At(q)), "after-overwrite"})
+					ats = append(ats, regRawAt{q, regCpInts(idx.At(q)), "after-overwrite"})
 				case 1: // append through the returned slice / truncate it
 					if len(ret) > 0 {
 						ret = append(ret[:len(ret)-1], 1<<20)
 					}
 					ret = append(ret, 1<<21)
-					ats = append(ats, rawAt{q, cpInts(idx.At(q)), "after-append"})
+					ats = append(ats, regRawAt{q, regCpInts(idx.At(q)), "after-append"})
 				default:
 					kept = append(kept, ret)
 				}
@@ -448,7 +448,7 @@ func regionsDrive(args []string) error {
 			}
 			for _, i := range r.Perm(len(qs)) {
 				if i%4 == 0 {
-					ats = append(ats, rawAt{qs[i], cpInts(idx.At(qs[i])), "second-sweep"})
+					ats = append(ats, regRawAt{qs[i], regCpInts(idx.At(qs[i])), "second-sweep"})
 				}
 			}
 		}
@@ -483,8 +483,8 @@ func regionsConc(args []string) error {
 		if s.kind == "mismatch" {
 			s = regGen(csid + 1)
 		}
-		idx, panicked, _ := newIndex(cpInts(s.starts), cpInts(s.ends))
-		var ats []rawAt
+		idx, panicked, _ := regNewIndex(regCpInts(s.starts), regCpInts(s.ends))
+		var ats []regRawAt
 		if !panicked && idx != nil {
 			qs := regQueries(s)
 			r := newRand(int64(csid) + 16700)
@@ -493,7 +493,7 @@ func regionsConc(args []string) error {
 				qs = qs[:60]
 			}
 			fmt.Fprintf(os.Stderr, "VH-CONC-SESSION %d BEGIN\n", csid)
-			res := make([][]rawAt, G)
+			res := make([][]regRawAt, G)
 			var wg sync.WaitGroup
 			start := make(chan struct{})
 			for g := 0; g < G; g++ {
@@ -505,7 +505,7 @@ func regionsConc(args []string) error {
 						for k := range qs {
 							q := qs[(k*(2*g+1)+g*7+round)%len(qs)]
 							ret := idx.At(q)
-							res[g] = append(res[g], rawAt{q, cpInts(ret), "goroutine-" + strconv.Itoa(g)})
+							res[g] = append(res[g], regRawAt{q, regCpInts(ret), "goroutine-" + strconv.Itoa(g)})
 							for i := range ret {
 								ret[i] = -1 - g
 							}
@@ -521,7 +521,7 @@ func regionsConc(args []string) error {
 			}
 			// and the answers afterwards, single-threaded
 			for _, q := range qs {
-				ats = append(ats, rawAt{q, cpInts(idx.At(q)), "after-concurrent"})
+				ats = append(ats, regRawAt{q, regCpInts(idx.At(q)), "after-concurrent"})
 			}
 		}
 		regEmit(tw, csid, s, panicked, ats, true)
